@@ -171,7 +171,8 @@ def validate(ctx, module, traces, env=None, shards=4, workers=2, timeout=900, ta
 # known findings
 # ----------------------------------------------------------------------------------------------
 def load_known(pid):
-    path = os.path.join(VERIF, "known_findings.json")
+    # listed properties: known_findings.json; extension checks (X..): extras_findings.json (observations outside the listed properties)
+    path = os.path.join(VERIF, "extras_findings.json" if pid.startswith("X") else "known_findings.json")
     if not os.path.exists(path):
         return []
     with open(path) as f:
